@@ -31,10 +31,15 @@ Verdicts on the implementation's answer `<result> ; <raw state> V <flag> [R <fla
   refuses_unrooted     a query that needs a rooted tree (leaves-under, subtree, node / edge path, MRCA) answered on an undirected graph
   dag_rootAt           `rootAt` of a DAG changed the nodes or the undirected edge set (ids, end points), or succeeded without making
                        the node the root, or changed something for an absent node
+  dag_rerooted         (explored only) `rootAt(n)` succeeded on a valid DAG with a single father-less node, but the result is not a
+                       valid DAG whose single father-less node is n
   copy_same_relations  after a copy construction / assignment the target container does not report the tables and flags of the source
                        (observers: not the same object<->id relations, by label)
   copy_independent     an operation on one container changed the reported state of another one; an observer holds an object
                        that belongs to another observer's pool (`copy_independent:<map>`)
+  removes_relation     `removeSon` / `removeFather` through an observer succeeded but the relation is still in the edge table, or another
+                       edge or a node went away
+  dag_query            fathers / sons of a DAG node are not the ones of the reported edge table
   keeps_object         `setFather` / `addSon` with an edge object succeeded but the object is not the one of
                        the new link (`getEdgeLinking(father, son)`); `addSon` with a free object, two known nodes and no
                        relation yet between them (`TW.addSonReady`) did not succeed; `setFather` with an object attached
@@ -559,7 +564,12 @@ def stepD (st : St) (op : List String) (impl : Option (List String)) : St × Str
       | some p =>
         if undirectedEdges di.g != undirectedEdges p.g || AL.keys di.g.nodes != AL.keys p.g.nodes
            || (res == ["ok"] && di.g.root != nat n) || (res != ["ok"] && !p.g.hasNode (nat n) && di.g != p.g)
-        then some "dag_rootAt" else none
+        then some "dag_rootAt"
+        -- explored, not proved (see level_note): a valid DAG with a single father-less node, re-rooted at one of its nodes,
+        -- is again a valid DAG whose single father-less node is the new root
+        else if res == ["ok"] && p.g.hasNode (nat n) && D.isDA p.g == .ok true && D.nbFatherless p.g == 1
+                && (D.isDA di.g != .ok true || D.nbFatherless di.g != 1 || T.hasFather di.g (nat n) != some false)
+        then some "dag_rerooted" else none
       | none => none
     match d.rootAt (nat n) with
     | .ok r => finishD st (gres okS r.1) r.2 (judgeD impl false spec)
@@ -740,7 +750,19 @@ def stepW (st : St) (op : List String) (impl : Option (List String)) : St × Str
         let fin := finishW st res r.2 (judgeW impl false extra)
         -- the selected observer may have been replaced: it stays selected
         fin
-    else if o == "o.removeSon" then mutr (tw.removeSon st.osel (nat j) (nat k)) none2
+    else if o == "o.removeSon" then
+      let prev := st.prevW
+      let extra : List String → TW → Option String := fun res wi =>
+        match prev with
+        | some p =>
+          (match p.w.getObs st.osel with
+           | some po =>
+             match AL.find (nat j) po.Ng, AL.find (nat k) po.Ng with
+             | some ia, some ib => if res == ["ok"] && !relationRemoved p.w.g wi.w.g ia ib then some "removes_relation" else none
+             | _, _ => none
+           | none => none)
+        | none => none
+      mutr (tw.removeSon st.osel (nat j) (nat k)) extra
     else if o == "o.qp" then
       let res := match tw.w.getObs st.osel with
         | some ob => "linking " ++ showOpt ((World.edgeLinking tw.w ob (nat j) (nat k)).map showOO)
@@ -875,6 +897,17 @@ def stepDW (st : St) (op : List String) (impl : Option (List String)) : St × St
     | _, _ => none
   let sh (r : TRes (List Obj)) : String := match r with | .ok l => showObjs l | .exc => "exc:bpp" | .fuel => "diverges" | .ub => "ub"
   let o (x : Option String) := showOpt x
+  -- after a successful removal of the relation father -> son (objects): it is gone, the others are there
+  let removed (f s : Obj) : List String → DW → Option String := fun res wi =>
+    match st.prevDW with
+    | some p =>
+      (match p.w.getObs k with
+       | some po =>
+         match AL.find f po.Ng, AL.find s po.Ng with
+         | some ia, some ib => if res == ["ok"] && !relationRemoved p.w.g wi.w.g ia ib then some "removes_relation" else none
+         | _, _ => none
+       | none => none)
+    | none => none
   match op with
   | ["w.sel", j] =>
     if nat j < 3 && (dw.w.getObs (nat j)).isSome then
@@ -887,8 +920,8 @@ def stepDW (st : St) (op : List String) (impl : Option (List String)) : St × St
   | ["w.deleteNode", a] => mutr (dw.deleteNode k (nat a)) none2
   | ["w.addFather", n, f, x] => mutr (dw.addFather k (nat n) (nat f) (optObj x)) (keeps (nat f) (nat n) (optObj x))
   | ["w.addSon", n, s, x] => mutr (dw.addSon k (nat n) (nat s) (optObj x)) (keeps (nat n) (nat s) (optObj x))
-  | ["w.removeFather", n, f] => mutr (dw.removeFather k (nat n) (nat f)) none2
-  | ["w.removeSon", n, s] => mutr (dw.removeSon k (nat n) (nat s)) none2
+  | ["w.removeFather", n, f] => mutr (dw.removeFather k (nat n) (nat f)) (removed (nat f) (nat n))
+  | ["w.removeSon", n, s] => mutr (dw.removeSon k (nat n) (nat s)) (removed (nat n) (nat s))
   | ["w.removeFathers", n] =>
     let r := dw.removeAll k (nat n) true
     finishDW st (match r.1, r.2.1 with | some l, _ => "l " ++ showObjs l | none, x => showW x) r.2.2 (judgeDW impl false none2)
@@ -925,7 +958,25 @@ def stepDW (st : St) (op : List String) (impl : Option (List String)) : St × St
         s!"hf {o (((AL.find (nat a) ob.Ng).bind (T.hasFather dw.w.g)).map showBool)} fa {o ((dw.fathersObj ob (nat a)).map showObjs)} " ++
         s!"nf {o ((dw.nbFathersObj ob (nat a)).map toString)} sons {o ((dw.sonsObj ob (nat a)).map showObjs)} ns {o ((dw.nbSonsObj ob (nat a)).map toString)}"
       | none => "ub"
-    finishDW st res dw (judgeDW impl false none2)
+    -- fathers and sons, as objects, against the edge table of the report (when every node carries an object of the observer)
+    let spec : List String → DW → Option String := fun res wi =>
+      match wi.w.getObs k with
+      | some ob =>
+        match AL.find (nat a) ob.Ng with
+        | some ia =>
+          if ob.Ng.length != wi.w.g.nodes.length then none else
+          let ids (l : List String) : Option (List Nat) := l.mapM (fun x => x.toNat?.bind (fun y => AL.find y ob.Ng))
+          let (_, r1) := takeUntil ["fa"] res
+          let (fa, r2) := takeUntil ["nf"] (r1.drop 1)
+          let (_, r3) := takeUntil ["sons"] r2
+          let (sons, _) := takeUntil ["ns"] (r3.drop 1)
+          let tops := (wi.w.g.edges.filter (fun p => p.2.2 == ia)).map (·.2.1)
+          let bots := (wi.w.g.edges.filter (fun p => p.2.1 == ia)).map (·.2.2)
+          if (match ids fa with | some l => !l.isPerm tops | none => true) || (match ids sons with | some l => !l.isPerm bots | none => true)
+          then some "dag_query" else none
+        | none => none
+      | none => none
+    finishDW st res dw (judgeDW impl false spec)
   | ["w.qe", x] =>
     let res := match dw.w.getObs k with
       | some ob => s!"son {o ((dw.sonOfEdge ob (nat x)).map showOO)} fa {o ((dw.fatherOfEdge ob (nat x)).map showOO)}"
